@@ -479,6 +479,19 @@ func (c *Ctx) Cmp(op Op, a, b *T) *T {
 			return c.False()
 		}
 	}
+	if op == Eq && a.Op == UF && b.Op == UF && strings.HasPrefix(a.Name, "inj:") && strings.HasPrefix(b.Name, "inj:") &&
+		strings.SplitN(a.Name, ":", 3)[1] == strings.SplitN(b.Name, ":", 3)[1] {
+		// members of an injective family (the stated collision-freeness
+		// assumption): equal results <=> same member and equal arguments
+		if a.Name != b.Name || len(a.A) != len(b.A) {
+			return c.False()
+		}
+		r := c.True()
+		for k := range a.A {
+			r = c.AndB(r, c.Cmp(Eq, a.A[k], b.A[k]))
+		}
+		return r
+	}
 	if op == Eq {
 		if a.W == 0 { // Bool equality
 			if a.IsConst() {
